@@ -141,6 +141,7 @@ fn apply_tok(m: &mut UserModel<'static>, tok: &str) -> Option<Result<(), String>
         ["ch", s, a, z, v] => m.set_columns_hidden(u(s)?, i(a)?, i(z)?, b(v)?),
         ["rhid", s, a, z, v] => m.set_rows_hidden(u(s)?, i(a)?, i(z)?, b(v)?),
         ["mr", s, r, n, d] => m.move_rows_action(u(s)?, i(r)?, i(n)?, i(d)?),
+        ["mc", s, r, n, d] => m.move_columns_action(u(s)?, i(r)?, i(n)?, i(d)?),
         _ => return None,
     })
 }
@@ -248,7 +249,7 @@ fn gen_cmd(rng: &mut Rng, sheets: &mut i64, depth: &mut i64) -> String {
             }
         }
     };
-    match rng.below(27) {
+    match rng.below(30) {
         0 | 1 | 2 => {
             *depth -= 1;
             "U".into()
@@ -298,6 +299,13 @@ fn gen_cmd(rng: &mut Rng, sheets: &mut i64, depth: &mut i64) -> String {
             let (a, z) = range(rng, 1048576);
             format!("rhid:{}:{}:{}:{}", sheet(rng, *sheets), a, z, rng.below(2))
         }
+        27..=29 => {
+            // column moves (both directions, landing zones that may contain hidden columns, off-grid targets)
+            let col = *rng.pick(&[1i64, 2, 3, 4, 5, 6, 8, 0, 16383]);
+            let count = *rng.pick(&[1i64, 1, 2, 3, 0, -1]);
+            let delta = *rng.pick(&[1i64, 2, 3, -1, -2, -3, 0, 4]);
+            format!("mc:{}:{}:{}:{}", sheet(rng, *sheets), col, count, delta)
+        }
         _ => {
             // row moves (both directions, landing zones that may contain hidden rows, off-grid targets)
             let row = *rng.pick(&[1i64, 2, 3, 4, 5, 6, 8, 0, 1048575]);
@@ -333,6 +341,11 @@ pub fn gen_histories(prefix: &str, ctx: &Ctx, sink: &mut dyn FnMut(String)) {
         "rh:0:6:6:50 rhid:0:4:5:1 mr:0:6:1:-1 F U R".to_string(),
         "rhid:0:3:4:1 rh:0:1:2:33 mr:0:1:2:2 U U R R".to_string(),
         "mr:0:1:1:-1 mr:0:0:1:1 mr:0:1048575:1:3 mr:0:2:0:1 mr:0:2:1:0".to_string(),
+        // column moves over hidden columns (twin)
+        "cw:0:2:2:40 ch:0:3:3:1 mc:0:2:1:1 U R U".to_string(),
+        "cw:0:6:6:50 ch:0:4:5:1 mc:0:6:1:-1 F U R".to_string(),
+        "ch:0:3:4:1 cw:0:1:2:33 mc:0:1:2:2 U U R R".to_string(),
+        "mc:0:1:1:-1 mc:0:0:1:1 mc:0:16383:1:3 mc:0:2:0:1 mc:0:2:1:0".to_string(),
     ];
     for c in corpus.iter() {
         sink(format!("{prefix} m {c}"));
@@ -359,7 +372,7 @@ macro_rules! model_suite {
         pub fn $fname() -> Suite {
             Suite {
                 name: $sname,
-                rule: "whole histories over the modelled attribute operations (workbook name, timezone, locale, frozen rows/columns, grid lines, tab colour, hide/unhide/rename/new/delete sheet, column widths, row heights, hidden columns/rows, row moves with the hidden-row-adjusted delta; valid and invalid arguments) interleaved with undo/redo/flush, run on the real UserModel + a from_bytes replica fed by apply_external_diffs, and on the Lean model; compared: per command Ok/Err, undo/redo stack depths and queue length (hooks), final modelled state of primary and replica, well-formedness flag; a fixed corpus of the witnesses of the repaired defects first, then seeded random histories (quick 400 x <=30 commands, thorough 6000 x <=80); non-trivial = at least two commands",
+                rule: "whole histories over the modelled attribute operations (workbook name, timezone, locale, frozen rows/columns, grid lines, tab colour, hide/unhide/rename/new/delete sheet, column widths, row heights, hidden columns/rows, row and column moves with the hidden-adjusted effective delta; valid and invalid arguments) interleaved with undo/redo/flush, run on the real UserModel + a from_bytes replica fed by apply_external_diffs, and on the Lean model; compared: per command Ok/Err, undo/redo stack depths and queue length (hooks), final modelled state of primary and replica, well-formedness flag; a fixed corpus of the witnesses of the repaired defects first, then seeded random histories (quick 400 x <=30 commands, thorough 6000 x <=80); non-trivial = at least two commands",
                 modelled: true,
                 gen: $gname,
                 eval: eval_model,
